@@ -319,7 +319,11 @@ impl World {
             let imm = if self.auto_open.get() {
                 Some(Outcome::Ok)
             } else if matches!(kind, GateKind::Publish | GateKind::Proto) && ch.chance(self.p_immediate.get(), 1000) {
-                let w = self.w_outcome.get();
+                let mut w = self.w_outcome.get();
+                if kind == GateKind::Proto {
+                    // negative acknowledgements exist for publishes only
+                    w = [w[0] + w[1], 0, w[2]];
+                }
                 Some(match ch.weighted(&w) {
                     0 => Outcome::Ok,
                     1 => Outcome::Neg(*ch.pick(&NEG_CODES)),
@@ -527,6 +531,16 @@ impl World {
             }
         })
         .await;
+    }
+
+    /// Skip the next op of this sender without running it (used when the op it depends on did not
+    /// produce what it needs, e.g. Release after a cancelled exactly-once send).
+    pub fn sender_skip_next(&self, sidx: usize) {
+        let mut ss = self.senders.borrow_mut();
+        let s = &mut ss[sidx];
+        if s.next_op < s.n_ops {
+            s.next_op += 1;
+        }
     }
 
     pub fn sender_op_done(&self, sidx: usize) {
